@@ -36,7 +36,9 @@ class Net(object):
         self.conns = []            # accepted TcpConn, in order
         self.attempts = 0          # connect() calls so far
         self.fds = {}
-        self.next_fd = 100
+        # where this process's descriptor numbers start (a process that
+        # already holds a thousand files hands out numbers select() rejects)
+        self.next_fd = int(cfg.get('fd_base', 100))
         self.real_socket_used = False
 
     def new_fd(self, sock):
@@ -68,6 +70,7 @@ class TcpConn(object):
         self.s2c_eof = False       # FIN delivered to client
         self.s2c_rst = False
         self.rst_err = False
+        self.first_send_fail_seq = None   # history seq of the first failed send
         self.s2c_fin_queued = False
         self._last_arrival = 0
         self.server_closed = False
@@ -279,6 +282,8 @@ class SimSocket(object):
         if conn.local_shutdown or conn.local_wr_shutdown:
             raise BrokenPipeError(errno.EPIPE, 'Broken pipe')
         if conn.s2c_rst:
+            if conn.first_send_fail_seq is None:
+                conn.first_send_fail_seq = sim.seq
             if conn.rst_err:
                 conn.rst_err = False
                 sim.log('send-rst', conn.index)
@@ -310,6 +315,8 @@ class SimSocket(object):
             if self.net.send_error and conn.sends_after_peer_close > 1 \
                     and sim.tape.choose(2, 'io'):
                 sim.stat('fault.send-error')
+                if conn.first_send_fail_seq is None:
+                    conn.first_send_fail_seq = sim.seq
                 sim.log('send-error', conn.index)
                 raise BrokenPipeError(errno.EPIPE, 'Broken pipe')
         conn.client_send(data)
@@ -584,6 +591,12 @@ class SimSelectModule(object):
         if not isinstance(fd, int) or fd < 0:
             raise ValueError('file descriptor cannot be a negative '
                              'integer (%r)' % (fd,))
+        if fd >= 1024:
+            # FD_SETSIZE: a failing call, not a wait
+            sim.stat('fault.fd-out-of-range')
+            sim.log('select-fd-out-of-range', fd)
+            sim.current.io_ops += 1
+            raise ValueError('filedescriptor out of range in select()')
         sock = net.fds.get(fd)
         if sock is None:
             raise OSError(errno.EBADF, 'Bad file descriptor')
@@ -741,8 +754,8 @@ class SimRLock(object):
         if sim.aborting:
             return True
         sim.yield_point(21)
-        me = sim.current
-        if self.owner is me:
+        me = sim.current or 'set-up'
+        if self.owner == me:
             self.count += 1
             return True
         while self.owner is not None:
@@ -763,8 +776,8 @@ class SimRLock(object):
         sim = self.sim
         if sim.aborting:
             return
-        me = sim.current
-        if self.owner is not me:
+        me = sim.current or 'set-up'
+        if self.owner != me:
             raise RuntimeError('cannot release un-acquired lock')
         self.count -= 1
         if self.count == 0:
